@@ -25,7 +25,9 @@ import (
 	"github.com/AdguardTeam/AdGuardDNS/internal/backendpb"
 	"github.com/miekg/dns"
 	"google.golang.org/grpc"
+	"google.golang.org/grpc/codes"
 	"google.golang.org/grpc/metadata"
+	"google.golang.org/grpc/status"
 	"google.golang.org/protobuf/types/known/emptypb"
 	"gopkg.in/yaml.v2"
 )
@@ -80,6 +82,7 @@ type fixtures struct {
 
 	httpAddr  string
 	grpcAddr  string
+	grpcKVErr string // same services, but the key-value service always fails
 	redisAddr *net.TCPAddr
 	probe6    string
 	upstreams []string // host:port of the stub upstreams (main ×2, fallback ×2)
@@ -89,15 +92,16 @@ type fixtures struct {
 }
 
 const (
-	blockedHost  = "blocked.c20.example."
-	bigHost      = "big.c20.example."
-	midHost      = "mid.c20.example."
-	midTXTChunks = 4 // × 200 bytes: about 900 bytes on the wire
-	filterListID = "adguard_dns_filter"
-	dnsCheckName = "c20probe-dnscheck.adguard-dns.com."
-	ddrName      = "_dns.resolver.arpa."
-	tlsSNI       = "dns.example.com"
-	bigTXTChunks = 14 // × 200 bytes
+	blockedHost    = "blocked.c20.example."
+	bigHost        = "big.c20.example."
+	midHost        = "mid.c20.example."
+	midTXTChunks   = 4 // × 200 bytes: about 900 bytes on the wire
+	filterListID   = "adguard_dns_filter"
+	dnsCheckName   = "c20probe-dnscheck.adguard-dns.com."
+	dnsCheckSuffix = "dnscheck.adguard-dns.com."
+	ddrName        = "_dns.resolver.arpa."
+	tlsSNI         = "dns.example.com"
+	bigTXTChunks   = 14 // × 200 bytes
 )
 
 func (fx *fixtures) close() {
@@ -229,6 +233,17 @@ func newFixtures(dir string, distInline map[string]interface{}) (fx *fixtures, e
 	backendpb.RegisterRemoteKVServiceServer(gs, &grpcKV{m: map[string][]byte{}})
 	go func() { _ = gs.Serve(gl) }()
 	fx.closers = append(fx.closers, gs.Stop)
+	gl2, err := net.Listen("tcp4", "127.0.0.1:0")
+	if err != nil {
+		return nil, err
+	}
+	fx.grpcKVErr = gl2.Addr().String()
+	gs2 := grpc.NewServer()
+	backendpb.RegisterDNSServiceServer(gs2, &grpcDNS{})
+	backendpb.RegisterRateLimitServiceServer(gs2, &grpcRL{})
+	backendpb.RegisterRemoteKVServiceServer(gs2, &grpcKVFail{})
+	go func() { _ = gs2.Serve(gl2) }()
+	fx.closers = append(fx.closers, gs2.Stop)
 
 	// "Redis": accepts and closes.
 	rl, err := net.Listen("tcp4", "127.0.0.1:0")
@@ -403,6 +418,19 @@ func (k *grpcKV) Set(_ context.Context, r *backendpb.RemoteKVSetRequest) (*backe
 	}
 	k.m[r.GetKey()] = r.GetData()
 	return &backendpb.RemoteKVSetResponse{}, nil
+}
+
+// grpcKVFail is the always-error mode of the key-value backend.
+type grpcKVFail struct {
+	backendpb.UnimplementedRemoteKVServiceServer
+}
+
+func (*grpcKVFail) Get(context.Context, *backendpb.RemoteKVGetRequest) (*backendpb.RemoteKVGetResponse, error) {
+	return nil, status.Error(codes.Unavailable, "c20: key-value backend is failing")
+}
+
+func (*grpcKVFail) Set(context.Context, *backendpb.RemoteKVSetRequest) (*backendpb.RemoteKVSetResponse, error) {
+	return nil, status.Error(codes.Unavailable, "c20: key-value backend is failing")
 }
 
 // ---- ports ---------------------------------------------------------------------------------
@@ -660,9 +688,16 @@ func localise(dist yaml.MapSlice, fx *fixtures, portBase int) (*localised, error
 }
 
 // childEnv is the complete environment of one child (nothing is inherited).
-func childEnv(fx *fixtures, dir string, debugPort int) []string {
+func childEnv(fx *fixtures, dir string, debugPort int, ms []mutation) []string {
 	h := "http://" + fx.httpAddr
 	g := "grpc://" + fx.grpcAddr
+	kv := g
+	switch kvFault(ms) {
+	case "unreachable":
+		kv = "grpc://127.0.0.1:1"
+	case "always-error":
+		kv = "grpc://" + fx.grpcKVErr
+	}
 	geo := filepath.Join(repoDir(), "internal", "geoip", "testdata")
 	return []string{
 		"PATH=/usr/bin:/bin",
@@ -687,7 +722,7 @@ func childEnv(fx *fixtures, dir string, debugPort int) []string {
 		"PROFILES_URL=" + g,
 		"BILLSTAT_URL=" + g,
 		"BACKEND_RATELIMIT_URL=" + g,
-		"DNSCHECK_REMOTEKV_URL=" + g,
+		"DNSCHECK_REMOTEKV_URL=" + kv,
 		"REDIS_ADDR=127.0.0.1",
 		"REDIS_PORT=" + strconv.Itoa(fx.redisAddr.Port),
 		"SENTRY_DSN=stderr",
